@@ -1016,3 +1016,69 @@ def rule_pairs_keep_orientation(ctx, facts, rule):
         ctx.check(okk and okv, rule, f.path, f.span, "the pair conversion keeps key and value in place", "key %s value %s" % (origin_strs(k, 2), origin_strs(v, 2)),
                   "key origins %s, value origins %s" % (origin_strs(k), origin_strs(v)), extra="pair")
     ctx.floor(rule, "fastrace", n, 4, "(key, value) conversion closures")
+
+
+def rule_config(ctx, facts, rule):
+    """The default configuration is the non-cancelable one, and the builder methods set exactly the field they name."""
+    prov = Prov(facts)
+    CFG = "fastrace::collector::Config"
+    d = [c for c in constructions(facts, CFG, crates=["fastrace"]) if c[0].path.endswith("as core::default::Default>::default")]
+    ok = False
+    detail = "no construction in Default::default"
+    if d:
+        fn, b, s, f = d[0]
+        canc = data_origins(prov.of_operand(fn, f["cancelable"]))
+        ok = bool(canc) and all(x.kind == "const" and str(x.key) == "false" for x in canc)
+        detail = "cancelable <- %s, report_interval <- %s" % (origin_strs(canc), origin_strs(prov.of_operand(fn, f["report_interval"]), 3))
+    ctx.check(ok, rule, "<%s as Default>::default" % CFG, "-", "Config::default() is the non-cancelable configuration", detail, detail, extra="default")
+    for meth, fld in (("cancelable", "cancelable"), ("report_interval", "report_interval")):
+        cs = [c for c in constructions(facts, CFG, crates=["fastrace"]) if c[0].path == CFG + "::" + meth]
+        ok = False
+        detail = "no construction"
+        if cs:
+            fn, b, s, f = cs[0]
+            mine = {sig(x) for x in data_origins(prov.of_operand(fn, f[fld]))}
+            others = [k for k in f if k != fld]
+            keep = all({sig(x) for x in data_origins(prov.of_operand(fn, f[k]))} == {("param", 1, ("." + k,))} for k in others)
+            ok = mine == {("param", 2, ())} and keep
+            detail = "%s <- %s, other fields kept: %s" % (fld, sorted(mine), keep)
+        ctx.check(ok, rule, CFG + "::" + meth, "-", "Config::%s(x) sets %s to x and keeps the other settings" % (meth, fld), detail, detail, extra=meth)
+
+
+def rule_reporter_ready(ctx, facts, rule):
+    """REPORTER_READY becomes true only after the collector exists; reporter_ready() reads it un-negated."""
+    prov = Prov(facts)
+    sr = facts.fn("fastrace::collector::global_collector::set_reporter")
+    if sr is not None:
+        st = sr.calls_re(r"GlobalCollector::start$", cleanup=False)
+        stores = [b for b in sr.calls_re(r"atomic::Atomic(Bool)?(::<bool>)?::store$", cleanup=False)]
+        ok = bool(st) and bool(stores) and all(any(sr.dominates(a, b) for a in st) for b in stores) and \
+            all(sr.term(b)["args"][1].get("v") == 1 for b in stores)
+        ctx.check(ok, rule, sr.path, sr.span, "set_reporter marks the reporter ready (store(true)) only after GlobalCollector::start returned", "",
+                  "start sites %s, store sites %s" % (st, stores), extra="store")
+    rr = facts.fn("fastrace::collector::global_collector::reporter_ready")
+    if rr is not None:
+        ret = data_origins(prov.of_local(rr, 0))
+        ok = bool(ret) and all(any(v[0] == "call" and re.search(r"atomic::Atomic(Bool)?(::<bool>)?::load$", v[1]) for v in x.via) for x in ret if x.kind != "agg") and \
+            not any(v[0] == "unop" for x in ret for v in x.via) and any(x.kind == "static" and str(x.key).endswith("REPORTER_READY") for x in ret)
+        ctx.check(ok, rule, rr.path, rr.span, "reporter_ready() is the value of REPORTER_READY, not negated", "", "origins %s" % origin_strs(ret), extra="load")
+
+
+def rule_collect_ids(ctx, facts, rule):
+    """start_collect hands out a fresh id and announces exactly that id to the collector."""
+    prov = Prov(facts)
+    fn = facts.fn("fastrace::collector::global_collector::GlobalCollect::start_collect")
+    if fn is None:
+        ctx.fail(rule, "GlobalCollect::start_collect", "-", "anchor exists", "anchor lost", extra="anchor")
+        return
+    fa = fn.calls_re(r"atomic::Atomic(Usize)?(::<usize>)?::fetch_add$", cleanup=False)
+    ok = len(fa) == 1 and fn.term(fa[0])["args"][1].get("v") not in (0, None)
+    cons = [c for c in constructions(facts, "fastrace::collector::command::StartCollect", crates=["fastrace"]) if c[0] is fn]
+    same = False
+    if cons and fa:
+        rl = root_local(fn, cons[0][3]["collect_id"])[0]
+        ret = root_local(fn, {"k": "copy", "l": 0, "p": []})[0]
+        dst = fn.term(fa[0])["dest"]["l"]
+        same = rl == dst and any(x.kind != "const" and any(v[0] == "call" and v[2] == fa[0] for v in x.via) for x in prov.of_local(fn, 0))
+    ctx.check(ok and same, rule, fn.path, fn.span, "start_collect returns NEXT_COLLECT_ID.fetch_add(c != 0) and sends StartCollect with the same id", "",
+              "fetch_add sites %s, same id sent and returned: %s" % (fa, same), extra="ids")
